@@ -86,6 +86,23 @@ fn pub_wrapper(spec: &Value) -> Value {
     }
 }
 
+/// {"leaves":[[21 u64]..]}: real ProofWithPublicInputs objects (proofs of the fake leaf circuit carrying these public
+/// inputs) handed to the REAL commit-time compatibility preflight.
+fn pb_preflight(spec: &Value) -> Value {
+    let leaves: Vec<Vec<u64>> = spec["leaves"].as_array().unwrap().iter().map(u64s).collect();
+    let (fake, targets) = test_helpers::fake_leaf::build_fake_leaf_circuit();
+    let mut proofs = vec![];
+    for l in &leaves {
+        let mut pis = [F::ZERO; 21];
+        for (k, v) in l.iter().enumerate() { pis[k] = F::from_noncanonical_u64(*v); }
+        proofs.push(test_helpers::fake_leaf::prove_fake_leaf(&fake, &targets, pis));
+    }
+    match qp_wormhole_aggregator::private_batch::prover::lib::verif_ensure_leaf_batch_compatible(&proofs) {
+        Ok(()) => json!({"accepted": true}),
+        Err(e) => json!({"accepted": false, "error": format!("{e}")}),
+    }
+}
+
 fn main() {
     let args: Vec<String> = std::env::args().collect();
     if args.len() < 3 { eprintln!("usage: vreplay <kind> <file.json>"); std::process::exit(2); }
@@ -93,6 +110,7 @@ fn main() {
     let out = match args[1].as_str() {
         "pb-wrapper" => pb_wrapper(&spec),
         "pub-wrapper" => pub_wrapper(&spec),
+        "pb-preflight" => pb_preflight(&spec),
         k => { eprintln!("unknown kind {k}"); std::process::exit(2); }
     };
     println!("{}", out);
